@@ -17,6 +17,9 @@
 (*                       (Impatient, or a socket that came back): the second challenge is taken for the   *)
 (*                       acceptance, the client sends its configuration to a master that is about to      *)
 (*                       refuse the stale response.                                                      *)
+(*  DmrOnlyWhenLoggedIn  DMR data is put on queue_incoming only while the client is logged in - refuted: the       *)
+(*                       branch for DMRD looks at no status, a datagram that arrives after the socket dropped    *)
+(*                       (status New) is forwarded all the same.                                                *)
 (* `last` holds the client-level event of the step (bounded, not a history) so that a counterexample    *)
 (* written with -dumpTrace json can be replayed on the real class.                                      *)
 EXTENDS MMDVMClient, TLC
